@@ -13,9 +13,10 @@ pub(crate) fn compress(data: &[u8]) -> Result<Vec<u8>> {
         return Ok(Vec::new());
     }
 
-    // Use ASCII mode with 2KB dictionary as default for MPQ archives
-    // This provides good compression ratio for most data types
-    implode_bytes(data, CompressionMode::ASCII, DictionarySize::Size2K)
+    // Use binary mode with 2KB dictionary as default for MPQ archives: it is the mode
+    // our own decoder (and every MPQ reader) supports; the ASCII literal mode is not
+    // implemented by the `implode` exploder used in `decompress` below
+    implode_bytes(data, CompressionMode::Binary, DictionarySize::Size2K)
         .map_err(|e| compression_error("PKWare", e))
 }
 
@@ -32,6 +33,16 @@ pub(crate) fn decompress(data: &[u8], expected_size: usize) -> Result<Vec<u8>> {
         expected_size,
         &data[..std::cmp::min(16, data.len())]
     );
+
+    // The first byte selects the literal mode: 0 = binary, 1 = ASCII (Huffman-coded
+    // literals). The exploder below only implements binary mode and would hit an
+    // `unimplemented!()` on an ASCII stream, so reject that as an error here.
+    if data[0] == 1 {
+        return Err(decompression_error(
+            "PKWare",
+            "ASCII literal mode is not supported",
+        ));
+    }
 
     // Use the implode crate for PKWare decompression in MPQ archives
     // Based on the working implementation in msierks/mpq-rust
